@@ -1015,7 +1015,34 @@ func c02FinalClass(obs string) string {
 // ---- generator ----------------------------------------------------------------------------------
 
 func c02Line(res string, capn int, ops ...string) string {
-	return fmt.Sprintf("c02 proto=raw lim=0 cap=%d res=%s ops=%s", capn, res, strings.Join(ops, ","))
+	return fmt.Sprintf("c02 proto=raw lim=0 cap=%d res=%s dok=%s ops=%s", capn, res, c02DecodesOK(res), strings.Join(ops, ","))
+}
+
+// c02DecodesOK lists the "undecodable body" reply kinds whose body the REAL codec nevertheless decodes
+// into the result type res without an error (e.g. the plain codec reads any bytes into a *string):
+// the decode outcome of a frame is an input of the model, not something it computes.
+func c02DecodesOK(res string) string {
+	var ok []string
+	if res != "bytes" {
+		sc := &c02Scn{res: res}
+		for _, k := range []string{"badj", "badp", "bads", "badf", "badx", "badt", "fov"} {
+			m := sc.frame(k, 1)
+			cd, err := codec.Get(m.Codec)
+			if err != nil {
+				continue
+			}
+			func() {
+				defer func() { recover() }()
+				if cd.Unmarshal(m.Body, c02NewResult(res)) == nil {
+					ok = append(ok, k)
+				}
+			}()
+		}
+	}
+	if len(ok) == 0 {
+		return "-"
+	}
+	return strings.Join(ok, "+")
 }
 
 var c02Kinds = []string{"ok", "st", "nil", "nile", "unreg", "badj", "badp", "bads", "badf", "badx", "badt", "push", "pan", "fov"}
